@@ -99,4 +99,34 @@ example : ∃ tbl, resolve sample 1 = .ok tbl := by
   | ok t => exact ⟨t, rfl⟩
   | error e => rw [hr] at h; simp at h
 
+/-- `Include.Used` of include `k` is set exactly when something in the file is bound through it: a
+type node whose Reference index is `k`, an identifier value whose Extra.Index is `k`, or a service
+whose base-service Reference index is `k`. -/
+theorem used_iff_referenced {p : Program} {root : Nat} {tbl : Table} (h : resolve p root = .ok tbl)
+    {i : Nat} {f : File} {rf : RFile} (hf : p[i]? = some f) (hr : tbl[i]? = some (some rf)) :
+    rf.used.length = f.includes.length ∧
+    ∀ k, k < f.includes.length → (rf.used[k]? = some true ↔ RefersTo f rf k) := by
+  obtain ⟨inv, _⟩ := resolve_inv h
+  obtain ⟨views, hv, _, ha⟩ := inv.produced i f rf hf hr
+  exact resolveAST_used hf hv ha
+
+/-- On a resolved program, `semantic.Deref` of any Type node terminates (some finite recursion
+depth suffices: no fatal recursion) and returns the file, name and category of what the node
+denotes — the struct / enum / union / exception definition, or the base or container type
+expression, at the end of its typedef chain. -/
+theorem deref_total {p : Program} {root : Nat} {tbl : Table} (h : resolve p root = .ok tbl)
+    {i : Nat} {f : File} {rf : RFile} (hf : p[i]? = some f) (hr : tbl[i]? = some (some rf))
+    {s : Slot} {te : TypeExpr} (hs : SlotType f s te) {ns : List RNode} (hns : rf.nodesAt s = some ns)
+    {k : Nat} {sub : TypeExpr} {nd : RNode} (hsub : te.nodes[k]? = some sub) (hnd : ns[k]? = some nd) :
+    ∃ t, Den p i (.ty sub) t ∧ ∃ fuel0, ∀ fuel, fuel0 ≤ fuel →
+      deref (tableViews p tbl) fuel i sub.rootName nd.cat nd.isTypedef nd.ref = .ok (t.file, t.name, t.cat) := by
+  obtain ⟨inv, _⟩ := resolve_inv h
+  obtain ⟨ns', h1, _, h3⟩ := (inv.good i f rf hf hr).nodes s te hs
+  rw [hns] at h1
+  simp only [Option.some.injEq] at h1
+  subst h1
+  have hng := h3 k sub nd hsub hnd
+  obtain ⟨t, hden, _⟩ := hng.1
+  exact ⟨t, hden, deref_den inv hden ⟨rf, hr⟩ nd hng⟩
+
 end Props.C05
